@@ -78,6 +78,9 @@ TEMPLATES = {
   'ipv6':      lambda n: ETH + [0x86, 0xdd],
   'llc':       lambda n: ETH + [0x00, 0x20],
   'ip':        lambda n: ETH + [0x08, 0x00],
+  # LLDPDU whose three mandatory TLV headers are fixed (chassis id len 7, port id len 3, ttl len 2); the bodies of these and the
+  # whole 4th TLV (type, length, body) and everything after it are symbolic
+  'lldp4':     lambda n: ETH + [0x88, 0xcc],
 }
 
 
@@ -103,6 +106,8 @@ def h_template(ctx, name, n, proto=None, ports=None):
       sp, dp = ports
       if sp is not None: body[20:22] = [sp >> 8, sp & 255]
       if dp is not None: body[22:24] = [dp >> 8, dp & 255]
+  if name == 'lldp4' and len(body) >= 18:
+    body[0:2] = [2, 7]; body[9:11] = [4, 3]; body[14:16] = [6, 2]
   if name == 'ipv6' and len(body) >= 40:
     # concrete addresses: printing symbolic IPv6 addresses (2^16 zero-run shapes) is C16's subject
     body[8:40] = [0x20, 0x01, 0x0d, 0xb8] + [0] * 11 + [1] + [0xfe, 0x80] + [0] * 13 + [2]
@@ -117,9 +122,10 @@ def obligations(tier):
   thorough = tier != 'quick'
   rnd = [14, 15, 18, 22] + ([26, 34] if thorough else [])
   t = []
-  for name, lens in (('vlan', [18, 19, 22]), ('arp', [14, 20, 42, 43]), ('rarp', [42]), ('lldp', [14, 16, 20, 24]), ('eapol', [14, 18, 19, 24]),
+  for name, lens in (('vlan', [18, 19, 22]), ('arp', [14, 20, 42, 43]), ('rarp', [42]), ('lldp', [14, 16, 20, 24] + ([30] if thorough else [])), ('eapol', [14, 18, 19, 24]),
                      ('mpls', [14, 18, 22]), ('llc', [14, 17, 18, 22, 24]), ('ipv6', [14, 30, 54, 58])):
     for n in lens: t.append(dict(name=name, n=n))
+  for n in [32, 34, 36] + ([38] if thorough else []): t.append(dict(name='lldp4', n=n))
   for proto, lens in ((1, [34, 38, 42, 46, 62]), (6, [34, 54, 56] + ([58, 62] if thorough else [])), (17, [34, 42, 46]), (2, [34, 42, 46]),
                       (47, [34, 38, 42, 46]), (99, [34, 38])):
     for n in lens: t.append(dict(name='ip', n=n, proto=proto))
